@@ -81,6 +81,7 @@ struct World {
     answered: Vec<u64>,
     resolved: Vec<u64>,
     held: Vec<(usize, usize)>,
+    handlers: BTreeMap<u64, tokio::task::JoinHandle<()>>,   // the handle_htlc task of every delivered htlc
 }
 
 impl World {
@@ -221,10 +222,11 @@ async fn apply(w: &mut World, mgr: &Arc<Mgr>, ev: &Value) -> (bool, Option<Value
                 Ok(req) => {
                     let m = mgr.clone();
                     let rs = w.responses.clone();
-                    tokio::spawn(async move {
+                    let jh = tokio::spawn(async move {
                         let r = m.handle_htlc(&req).await;
                         rs.lock().unwrap().push((uid, serde_json::to_value(&r).unwrap()));
                     });
+                    w.handlers.insert(uid, jh);
                 }
                 Err(_) => {
                     // plugin.rs::on_htlc_accepted answers `continue` when the request cannot be decoded (D8 repair);
@@ -245,10 +247,11 @@ async fn apply(w: &mut World, mgr: &Arc<Mgr>, ev: &Value) -> (bool, Option<Value
                 if let Ok(req) = serde_json::from_value::<HtlcAcceptedRequest>(rv) {
                     let m = mgr.clone();
                     let rs = w.responses.clone();
-                    tokio::spawn(async move {
+                    let jh = tokio::spawn(async move {
                         let r = m.handle_htlc(&req).await;
                         rs.lock().unwrap().push((uid, serde_json::to_value(&r).unwrap()));
                     });
+                    w.handlers.insert(uid, jh);
                     for _ in 0..5 { tokio::task::yield_now().await; }
                 }
             }
@@ -372,6 +375,14 @@ async fn apply(w: &mut World, mgr: &Arc<Mgr>, ev: &Value) -> (bool, Option<Value
             (true, None)
         }
         "height" => { w.height.store(ev["v"].as_u64().unwrap() as u32, Ordering::SeqCst); (true, None) }
+        "hangup" => {
+            // the handler task of one held htlc goes away (its response channel is closed); nothing else happens
+            let uid = ev["uid"].as_u64().unwrap();
+            match w.handlers.remove(&uid) {
+                Some(jh) if !jh.is_finished() => { jh.abort(); for _ in 0..5 { tokio::task::yield_now().await; } (true, None) }
+                _ => (false, None),
+            }
+        }
         _ => (false, None),
     }
 }
@@ -497,6 +508,14 @@ fn expand(w: &mut World, ev: &Value) -> Vec<Value> {
             }
             vec![]
         }
+        // the handler of the nth delivered, still unanswered htlc of this epoch goes away
+        "hangup_nth" => {
+            let nth = ev.get("nth").and_then(|n| n.as_u64()).unwrap_or(0) as usize;
+            let epoch = w.node.lock().unwrap().epoch;
+            let cand: Vec<u64> = w.delivered.iter().filter(|d| d["epoch"].as_u64() == Some(epoch)).map(|d| d["uid"].as_u64().unwrap())
+                .filter(|u| !w.answered.contains(u) && w.handlers.get(u).map(|j| !j.is_finished()).unwrap_or(false)).collect();
+            match cand.get(nth) { Some(u) => vec![json!({"e": "hangup", "uid": u})], None => vec![] }
+        }
         _ => vec![ev.clone()],
     }
 }
@@ -571,7 +590,7 @@ pub fn run_case(case: &Value) -> Value {
     HEIGHT_FROZEN.store(false, Ordering::SeqCst); HEIGHT_HELD.store(false, Ordering::SeqCst);
     let mut w = World { cfg: cfg.clone(), node: node.clone(), invoices: vec![], hashes: vec![], preimages: BTreeMap::new(), att_ord: BTreeMap::new(),
         responses: Arc::new(Mutex::new(vec![])), notes: Arc::new(Mutex::new(vec![])), height: Arc::new(AtomicU32::new(0)), panics_seen: PANICS.load(Ordering::SeqCst),
-        skew_guard: BTreeMap::new(), skewed: false, last_existed: None, next_uid: 0, delivered: vec![], answered: vec![], resolved: vec![], held: vec![] };
+        skew_guard: BTreeMap::new(), skewed: false, last_existed: None, next_uid: 0, delivered: vec![], answered: vec![], resolved: vec![], held: vec![], handlers: BTreeMap::new() };
     // invoices: either descriptors (built here) or {"raw": bolt11}
     for d in case["invoices"].as_array().cloned().unwrap_or_default() {
         let s = match d.get("raw").and_then(|r| r.as_str()) { Some(r) => r.to_string(), None => world::make_invoice(&d) };
